@@ -273,3 +273,34 @@ def attribute(violations: list[dict], run: Any, prop: str) -> list[dict]:
     if w:
         return [viol(f"{prop}/stale-redirect-completion-overtakes-next-iteration", f"{w}; symptoms: {[v['sig'] for v in violations][:4]}")]
     return violations
+
+
+def recovery_started_parent_before_children(run: Any) -> str | None:
+    """Mechanism classifier: a recovery sweep pushed StartTask for a stage whose
+    synthetic BEFORE stages had not finished (recovery.py looks only at the parent's
+    own tasks and start_time)."""
+    groups = Groups(run.commits)
+    tl = Timeline(run.audit)
+    id2ref = {v["id"]: k for k, v in run.state.get("stages", {}).items()}
+    children: dict[str, list[str]] = {}
+    for ref, v in run.state.get("stages", {}).items():
+        if "<before" in ref:
+            parent_ref = ref.split("<", 1)[0]
+            pid = run.state["stages"].get(parent_ref, {}).get("id")
+            if pid:
+                children.setdefault(pid, []).append(v["id"])
+    for a in run.audit:
+        if a["kind"] == "queue" and a["op"] == "ins" and a["c"] == "StartTask":
+            g = groups.of(a["seq"])
+            tag = groups.tag(g)
+            if not tag or tag[0] != "Recovery":
+                continue
+            try:
+                sid = json.loads(a["d"]).get("stage_id")
+            except Exception:
+                continue
+            for cid in children.get(sid, []):
+                st = tl.at(cid, a["seq"])
+                if st not in CONTINUABLE:
+                    return f"recovery pushed StartTask for {id2ref.get(sid, sid)} while its before-stage {id2ref.get(cid, cid)} was {st}"
+    return None
